@@ -34,7 +34,7 @@ from mirsym import Agg, Bool, EnumV, Int, Lazy, Ref, Str
 LITS = ["a", "B", ".", "-", "+", "(", ")", "\u017c", "|", ",", "}", "^", "$", " ", "#", "~", "]"]
 WILD = ["?", "*", "**", "/", "[ab]", "[!ab]", "[a-c]", "[.]", "{a,b}", "{a*,/b}", "{a,{b,c}}", "{,a}", "@(a|b)", "?(a|b)", "+(a|b)",
         "*(a|b)", "*(a|bc)", "@(a?|*b)", "+(a|/)", "\\*", "\\?", "\\[", "\\{", "\\\\", "\\a",
-        "{a|b,c}", "{a (1),b}", "{(a),b)}", "@(a,b|c)", "+(a}|b)", "?(a,|b)"]
+        "{a|b,c}", "{a (1),b}", "{(a),b)}", "@(a,b|c)", "+(a}|b)", "?(a,|b)", "\\d", "\\w", "\\s", "\\n", "\\<", "\\\u017c"]
 CORE = ["a", ".", "\u017c", "(", "?", "*", "**", "/", "[ab]", "[!ab]", "{a,b}", "@(a|b)", "?(a|b)", "+(a|b)", "*(a|b)", "\\*"]
 MINI = ["a", ".", "*", "**", "/", "[!a]", "{a,b}", "*(a|b)"]
 CI_TOK = ["a", "B", "\u017c", "\u0179", "*", "[ab]", "[!aB]", "{a,B}", "/", "."]
